@@ -1,7 +1,7 @@
 (* Extraction of the executable models (ExtrOcamlBasic only: bool, option,
    list, prod, unit, sumbool map to OCaml's; Z/N/positive stay inductive). *)
 From Coq Require Import Extraction ExtrOcamlBasic.
-From STS Require Import Model.Ranges Model.Chunk Model.Queue Model.LogM Model.Stage Model.Sender Model.Conf Model.Auth Model.Wire Model.Prune Model.Cache.
+From STS Require Import Model.Ranges Model.Chunk Model.Queue Model.LogM Model.Stage Model.Sender Model.Conf Model.Auth Model.Wire Model.Prune Model.Cache Model.Tracker.
 Extraction Language OCaml.
 Set Extraction Optimize.
 Extraction "model.ml"
@@ -19,4 +19,5 @@ Extraction "model.ml"
   handle_validate is_local clean_rel clean_abs resolve names_local
   enc_header decode decode_header split_spec translate
   prune
-  cadd cdone creset cremove cpersist crestart cget empty_cache cstep c_other_version.
+  cadd cdone creset cremove cpersist crestart cget empty_cache cstep c_other_version
+  track_run track_payload hand_off.
